@@ -44,7 +44,8 @@ CHECKS = {
 CHECKS['C04'] = dict(
     level='exploration', ref='3/C04',
     technique='runtime monitoring: lock-step RefCache monitor under a virtual clock with frozen-instant batches, '
-              'expiry-centred history generator, Cache and FanoutCache',
+              'expiry-centred history generator, Cache and FanoutCache; schedule fuzzer for expired-row removal racing '
+              'with rewrites; timed linearizability (clock window per call) of queue histories with expiring items',
     text='Histories put 1/99/100/101/250 items on one shared (clock frozen) or on spread expiry instants, move the clock '
          '(none/tiny/past one/past all) and drive every operation that reads or writes expiry; expire()/cull() results '
          'and the surviving rows are compared with the reference after every call; lazy culls are checked to remove only '
@@ -55,7 +56,8 @@ CHECKS['C05'] = dict(
     level='exploration', ref='3/C05',
     technique='runtime monitoring: cooperative schedule fuzzer at SQL-statement/file-operation gates (timeout=0 '
               'connections) + call/return history + Wing-Gong linearizability checker against a sequential map; '
-              'free-running threads/processes with injected delays, per-key check',
+              'free-running threads/processes with injected delays (WAL and rollback journals), per-key check; handles '
+              'opened and iterations left half-consumed inside the schedules',
     text='~1.6k fuzzed schedules of small programs (2-4 clients, shared and separate Cache objects, inline and '
          'file-backed stamped values, LRU/statistics variant) and ~30 free-running thread/process runs per quick run; '
          'whole histories incl. a final read-out are linearized; only lookups that missed while overlapping a write of '
@@ -76,7 +78,9 @@ CHECKS['C06'] = dict(
 CHECKS['C07'] = dict(
     level='fault_enumeration', ref='3/C07',
     technique='runtime monitoring + fault injection: forked child SIGKILLs itself at EVERY probe gate of each program; '
-              'a different process judges contents, check(), writability and repair',
+              'also at every gate of creating/re-opening a directory, at syscalls inside SQLite (strace inject), from '
+              'outside at random instants, and after a COMMIT kept waiting by a reader; a different process judges '
+              'contents, check(), writability and repair',
     text='10 fixed programs (every mutating method of Cache/Deque/Index, blocks, maxlen trimming, bulk removals over '
          '>100 rows, reopen) plus seeded random programs: all G gates of each are killed (about 3k kills per quick run); '
          'contents must equal the state before or after the interrupted operation (multi-step methods: any post-commit '
@@ -98,7 +102,8 @@ CHECKS['C10'] = dict(
     level='exploration', ref='3/C10',
     technique='runtime monitoring: lock-step deque-per-prefix monitor over mixed queue/ordinary-key histories under a '
               'virtual clock; schedule fuzzer + linearizability against a deque model; exactly-once and per-producer '
-              'real-time order monitors over free-running threads/processes',
+              'real-time order monitors over free-running threads/processes; timed linearizability (clock window per '
+              'call) for queues with expiring items; transaction blocks in the queue histories',
     text='~30k sequential calls over 7 prefixes (incl. prefixes that extend one another and look-alike ordinary keys), '
          '~1k fuzzed producer/consumer schedules linearized against the deque model, 16 free runs with unique '
          '(producer, seq) payloads checked for loss, duplication, partial values and per-producer order.',
@@ -164,8 +169,10 @@ CHECKS['C14'] = dict(
     level='fault_enumeration', ref='3/C14',
     technique='runtime monitoring + fault injection: a second SQLite connection holds BEGIN IMMEDIATE before the call, '
               'from the call\'s own pre:BEGIN gate, from the second page of a bulk removal, or until the k-th failed '
-              'attempt; differential oracle against a fault-free twin; table/file snapshot equality',
-    text='The whole case table (353 cases: every public data operation of Cache, FanoutCache, DjangoCache, Deque and '
+              'attempt (WAL and rollback-journal databases); holder = transact() block of a sibling thread on the same '
+              'object; reader holding off the COMMIT of a rollback-journal database; differential oracle against a '
+              'fault-free twin; table/file snapshot equality',
+    text='The whole case table (749 cases: every public data operation of Cache, FanoutCache, DjangoCache, Deque and '
          'Index x faults x retry x connection timeout) is executed on every run (exhaustive over the table).',
     note='stats()/reset() are not data operations and are not driven. A call that returns while the holder still owns '
          'the lock is a violation.')
@@ -185,7 +192,8 @@ CHECKS['C17'] = dict(
     level='fault_enumeration', ref='3/C17',
     technique='runtime monitoring + damage injection: every damage kind and seeded combinations applied behind the '
               'library\'s back; ground-truth warning oracle, bit-level snapshot equality for plain check(), '
-              'repair-then-clean, readability and untouched-item monitors',
+              'repair-then-clean, readability and untouched-item monitors; journal-mode and path-spelling dimensions; '
+              'check() under a held lock and right after another client\'s write (adversarial schedule)',
     text='All 7 single damage kinds x {Cache, FanoutCache shard} (3 repetitions) plus ~1.3k random combinations of 2-5 '
          'damages per quick run; check() must report exactly the injected damage and change nothing; check(fix=True) '
          'must leave a clean, readable cache with undamaged items untouched.',
